@@ -147,7 +147,12 @@ class VCSAPI:
     def status(self, required_files: typ.Set[str]) -> typ.List[str]:
         """Get status lines."""
         status_output = self('status')
-        status_items  = [line.split(" ", 1) for line in status_output.splitlines()]
+        # porcelain lines are "XY path" (X or Y may be a space), renames "XY old -> new"
+        status_items = [
+            (line[:2].strip(), filepath)
+            for line in status_output.splitlines()
+            for filepath in line[2:].split(" -> ")
+        ]
 
         return [
             filepath.strip()
